@@ -283,7 +283,7 @@ def _encode_node(draw, T, vals, cfg, under_option):
         d = {"class": "NumpyArray", "dtype": dt, "shape": [n], "data": _leafdata(vals, dt)}
         if cfg.strided and draw(st.integers(0, 4)) == 0:
             d["phys"] = {"step": draw(st.sampled_from([1, 2, 3, -1, -2])), "offset": draw(st.integers(0, 3)), "pad": draw(st.integers(0, 2)),
-                         "fill": draw(st.sampled_from([0, 1]))}
+                         "fill": draw(st.sampled_from([0, 1, 99]))}
         return d
     if k in ("string", "bytes"):
         raw = [v.encode("utf-8", "surrogateescape") if isinstance(v, str) else v for v in vals]
